@@ -412,6 +412,16 @@ def _schemas():
         red: Byte
         green: Odd
         blue: 3
+    @pyrtl.wire_struct
+    class Oct:
+        x: 2
+        y: 6
+    # matrix types that agree in component WIDTH and size with a later one but not in the component schema (a flat 12-bit
+    # component vs a 4x3 matrix, a flat 6-bit one vs a struct, two different 8-bit structs), defined first
+    Flat12 = pyrtl.wire_matrix(component_schema=12, size=2)
+    Flat6 = pyrtl.wire_matrix(component_schema=6, size=3)
+    ByteM = pyrtl.wire_matrix(component_schema=Byte, size=2)
+    OctM = pyrtl.wire_matrix(component_schema=Oct, size=2)
     Word = pyrtl.wire_matrix(component_schema=3, size=4)
     Arr2 = pyrtl.wire_matrix(component_schema=Word, size=2)
     BMat = pyrtl.wire_matrix(component_schema=Odd, size=3)
@@ -422,7 +432,8 @@ def _schemas():
         address: Word
         valid: 1
         data: BMat
-    return {'Byte': Byte, 'Odd': Odd, 'Pixel': Pixel, 'Word': Word, 'Arr2': Arr2, 'BMat': BMat, 'Line': Line, 'Deep': Deep}
+    return {'Byte': Byte, 'Odd': Odd, 'Pixel': Pixel, 'Word': Word, 'Arr2': Arr2, 'BMat': BMat, 'Line': Line, 'Deep': Deep,
+            'Oct': Oct, 'Flat12': Flat12, 'Flat6': Flat6, 'ByteM': ByteM, 'OctM': OctM}
 
 
 # layout: name -> ('struct', [(field, sub)]) | ('matrix', sub, size) | int
@@ -435,6 +446,11 @@ LAYOUT = {
     'BMat': ('matrix', 'Odd', 3),
     'Line': ('struct', [('address', 'Word'), ('valid', 1), ('data', 'BMat')]),
     'Deep': ('matrix', 'Arr2', 2),
+    'Oct': ('struct', [('x', 2), ('y', 6)]),
+    'Flat12': ('matrix', 12, 2),
+    'Flat6': ('matrix', 6, 3),
+    'ByteM': ('matrix', 'Byte', 2),
+    'OctM': ('matrix', 'Oct', 2),
 }
 
 
